@@ -26,6 +26,9 @@
  * (cbmc 6.11 dies with a stack overflow in symex on this TU under --pointer-overflow-check: that one
  * check is off here (checks_off); it is on in the P units of the same functions.)
  *
+ * Native replay (native: self): the same harness natively - real libc, real str.c, lookups interposed by the
+ * fixed database below - with the component tuple from the verifier's witness.
+ *
  *   exact.parse.{n,p}{n,u}      parse result == tuple   (split: protocol absent/present x user absent/present)
  *   exact.parse_qslash.{n,p}    the same with '/' allowed in a query that follows the host directly (RFC 3986 allows it)
  *   exact.roundtrip.{n,p}{n,u}  parse(unparse(parse(t))) == parse(t), URL <= 7 characters (direct check at a small bound; for
@@ -42,6 +45,7 @@ unwind: 16
 backend: cadical
 timeout: 280
 checks_off: --pointer-overflow-check
+native: self
 funcs: spif_url_new_from_ptr, spif_url_init_from_ptr, spif_url_parse
 */
 /*@unit
@@ -54,6 +58,7 @@ unwind: 16
 backend: cadical
 timeout: 280
 checks_off: --pointer-overflow-check
+native: self
 funcs: spif_url_new_from_ptr, spif_url_init_from_ptr, spif_url_parse
 */
 /*@unit
@@ -66,6 +71,7 @@ unwind: 16
 backend: cadical
 timeout: 280
 checks_off: --pointer-overflow-check
+native: self
 funcs: spif_url_new_from_ptr, spif_url_init_from_ptr, spif_url_parse
 */
 /*@unit
@@ -78,6 +84,7 @@ unwind: 16
 backend: cadical
 timeout: 280
 checks_off: --pointer-overflow-check
+native: self
 funcs: spif_url_new_from_ptr, spif_url_init_from_ptr, spif_url_parse
 */
 /*@unit
@@ -90,6 +97,7 @@ unwind: 16
 backend: cadical
 timeout: 280
 checks_off: --pointer-overflow-check
+native: self
 funcs: spif_url_new_from_ptr, spif_url_parse
 */
 /*@unit
@@ -102,6 +110,7 @@ unwind: 16
 backend: cadical
 timeout: 280
 checks_off: --pointer-overflow-check
+native: self
 funcs: spif_url_new_from_ptr, spif_url_parse
 */
 /*@unit
@@ -114,6 +123,7 @@ unwind: 12
 backend: cadical
 timeout: 280
 checks_off: --pointer-overflow-check
+native: self
 funcs: spif_url_new_from_ptr, spif_url_new_from_str, spif_url_parse, spif_url_unparse
 */
 /*@unit
@@ -126,6 +136,7 @@ unwind: 12
 backend: cadical
 timeout: 280
 checks_off: --pointer-overflow-check
+native: self
 funcs: spif_url_new_from_ptr, spif_url_new_from_str, spif_url_parse, spif_url_unparse
 */
 /*@unit
@@ -138,6 +149,7 @@ unwind: 12
 backend: cadical
 timeout: 280
 checks_off: --pointer-overflow-check
+native: self
 funcs: spif_url_new_from_ptr, spif_url_new_from_str, spif_url_parse, spif_url_unparse
 */
 /*@unit
@@ -150,12 +162,14 @@ unwind: 12
 backend: cadical
 timeout: 280
 checks_off: --pointer-overflow-check
+native: self
 funcs: spif_url_new_from_ptr, spif_url_new_from_str, spif_url_parse, spif_url_unparse
 */
 #define VERIF_OWN_STRDUP
 #define NET_EXACT_LIBC
 #include "vprelude.h"
 
+#ifndef VERIF_NATIVE
 /* exact, loop-based libc string functions for the bounded run */
 size_t strlen(const char *s) { size_t n = 0; while (s[n]) n++; return n; }
 size_t strnlen(const char *s, size_t m) { size_t n = 0; while (n < m && s[n]) n++; return n; }
@@ -166,8 +180,11 @@ char *rindex(const char *s, int c) { return strrchr(s, c); }
 char *strstr(const char *h, const char *n) { return nondet_bool() ? 0 : (char *) h; }
 char *strdup(const char *s) { size_t n = strlen(s) + 1; char *r = malloc(n); memcpy(r, s, n); return r; }
 
+#endif
+
 #include "env_net.h"
 
+#ifndef VERIF_NATIVE
 /* exact "%d" rendering of one non-negative int (the only snprintf url.c reaches from parse) */
 int vg_snprintf(char *buf, size_t size, const char *fmt, long v)
 {
@@ -179,6 +196,8 @@ int vg_snprintf(char *buf, size_t size, const char *fmt, long v)
     buf[n] = 0;
     return n;
 }
+
+#endif
 
 /* lookups: the name-service database is fixed for the whole run (the harness picks it once, so the
  * second parse of the round trip sees the same database as the first): the protocol word is never an
@@ -205,7 +224,9 @@ struct servent *getservbyname(const char *name, const char *proto)
     return &vg_servent;
 }
 
+#ifndef VERIF_NATIVE
 /* ---- str models: exact, executable, fixed capacity ------------------------------------------------- */
+#define CBUF_TO_NUM 6
 #define MCAP 40                     /* bytes per model buffer: >= any size field reached within the bound */
 static SPIF_CONST_TYPE(strclass) s_class;       /* identity only */
 SPIF_TYPE(class) SPIF_CLASS_VAR(str) = (spif_class_t) &s_class;
@@ -284,7 +305,21 @@ spif_bool_t spif_str_append_from_ptr(spif_str_t self, spif_charptr_t other)
 }
 spif_cmp_t spif_str_comp(spif_str_t a, spif_str_t b) { return SPIF_CMP_EQUAL; }   /* not reached */
 
-#include "src/url.c"
+/* str.c:spif_str_to_num on a short decimal text (reached only by mutants of the parser) */
+size_t spif_str_to_num(spif_str_t self, int base)
+{
+    size_t v = 0; int i;
+    for (i = 0; i < CBUF_TO_NUM; i++) { char ch = self->s[i]; if (ch < '0' || ch > '9') break; v = v * 10 + (size_t) (ch - '0'); }
+    return v;
+}
+#endif   /* !VERIF_NATIVE: the native replay links the REAL str.c */
+
+#ifdef VERIF_NATIVE
+# include "rawsrc/url.c"
+#else
+# include "src/url.c"
+#endif
+
 
 /* ---- assembling ---------------------------------------------------------------------------------- */
 #ifndef CMAX
@@ -306,18 +341,17 @@ static _Bool ch_ok(char ch, int alpha)
     if (ch == '?') return (alpha & A_QM) != 0;
     return 0;
 }
-static void pick(comp_t *c, int alpha, unsigned minlen)
+/* every input is taken in harness() through VND (the native replay reads it from the witness) */
+static void pick_check(comp_t *c, int alpha, unsigned minlen)
 {
     unsigned i;
-    c->has = nondet_bool();
-    c->len = nondet_uchar();
     __CPROVER_assume(c->len >= minlen && c->len <= CMAX);
-    for (i = 0; i < CMAX; i++) {
-        c->c[i] = nondet_char();
-        __CPROVER_assume(i >= c->len || ch_ok(c->c[i], alpha));
-    }
+    for (i = 0; i < CMAX; i++) __CPROVER_assume(i >= c->len || ch_ok(c->c[i], alpha));
     c->c[c->len] = 0;
 }
+#define PICK(V_, N_, alpha, minlen) do { (V_).has = VND(bool, N_ ## _has); (V_).len = VND(uchar, N_ ## _len); \
+    (V_).c[0] = VND(char, N_ ## _c0); (V_).c[1] = VND(char, N_ ## _c1); (V_).c[2] = VND(char, N_ ## _c2); \
+    (V_).c[3] = VND(char, N_ ## _c3); (V_).c[4] = VND(char, N_ ## _c4); (V_).c[5] = 0; pick_check(&(V_), alpha, minlen); } while (0)
 static unsigned put(char *buf, unsigned at, const char *s, unsigned n)
 {
     unsigned i;
@@ -343,32 +377,35 @@ char w_text[URL_MAX + 1];
 void harness(void)
 {
     comp_t proto, user, pw, host, port, path, query, xport;
-    _Bool slashes = nondet_bool();
+    _Bool slashes = VND(bool, slashes);
     char buf[URL_MAX + 1];
     unsigned n = 0, i;
 
+    libast_debug_level = VND(uint, debug_level);
+#ifndef VERIF_NATIVE
     spif_str_strclass = &s_class; spif_str_class = (spif_class_t) &s_class; spif_url_class = &u_class;
+#endif
     vg_getproto_calls = 0; vg_getserv_calls = 0;
 #ifdef U_ROUNDTRIP
     /* round-trip units: empty service database (port resolution is covered by exact.parse.p*; a resolved port
      * lengthens the canonical text by ":65535" and, for a bare path, by "//localhost": too long for this bound) */
-    w_serv_tcp = 0; w_serv_udp = 0; w_servproto_known = nondet_bool();
+    w_serv_tcp = 0; w_serv_udp = 0; w_servproto_known = VND(bool, servproto_known);
 #else
-    w_serv_tcp = nondet_bool(); w_serv_udp = nondet_bool(); w_servproto_known = nondet_bool();
+    w_serv_tcp = VND(bool, serv_tcp); w_serv_udp = VND(bool, serv_udp); w_servproto_known = VND(bool, servproto_known);
 #endif
-    w_port = nondet_int(); __CPROVER_assume(w_port >= 0 && w_port <= 65535);
+    w_port = VND(int, serv_port); __CPROVER_assume(w_port >= 0 && w_port <= 65535);
 
-    pick(&proto, A_ALNUM, 1);
-    pick(&user, A_ALNUM | A_DOT, 1);
-    pick(&pw, A_ALNUM | A_DOT | A_COLON, 1);
-    pick(&host, A_ALNUM | A_DOT, 1);
-    pick(&port, A_DIGITONLY, 1);
-    pick(&path, A_ALNUM | A_DOT | A_SLASH | A_COLON | A_AT, 1);
+    PICK(proto, proto, A_ALNUM, 1);
+    PICK(user, user, A_ALNUM | A_DOT, 1);
+    PICK(pw, pw, A_ALNUM | A_DOT | A_COLON, 0);                /* a password may be present and empty: user:@host */
+    PICK(host, host, A_ALNUM | A_DOT, 1);
+    PICK(port, port, A_DIGITONLY, 0);                          /* a port may be present and empty: host:/path */
+    PICK(path, path, A_ALNUM | A_DOT | A_SLASH | A_COLON | A_AT, 1);
 #ifdef U_QUERY_SLASH
-    pick(&query, A_ALNUM | A_DOT | A_COLON | A_AT | A_QM | A_SLASH, 1);
+    PICK(query, query, A_ALNUM | A_DOT | A_COLON | A_AT | A_QM | A_SLASH, 0);
     __CPROVER_assume(query.has && !path.has);
 #else
-    pick(&query, A_ALNUM | A_DOT | A_COLON | A_AT | A_QM, 1);
+    PICK(query, query, A_ALNUM | A_DOT | A_COLON | A_AT | A_QM, 0);   /* a query may be present and empty: host? */
 #endif
     /* behaviour split (union of the units = every presence vector) */
     proto.has = (U_PROTO != 0);
